@@ -308,9 +308,9 @@ theorem doFindTypeByFields_spec {U : Universe} {t : Track} {s : State} (hI : Inv
 theorem serWalk_sim {R} {U : Universe} {t : Track} :
     ∀ (toks : List Tok) (s : State) (us : List Use) (fs : List Frame) (out : List Str),
       InvR R U t s →
-      (serWalk (fun s c p => doBuild U s c p) toks s fs out).2 =
-        (serWalk (σ := List Use) (fun us c p => (us ++ [(c, p)], pureBuild U c p)) toks us fs out).2 ∧
-      InvR R U t (serWalk (fun s c p => doBuild U s c p) toks s fs out).1 := by
+      (serWalk U (fun s c p => doBuild U s c p) toks s fs out).2 =
+        (serWalk (σ := List Use) U (fun us c p => (us ++ [(c, p)], pureBuild U c p)) toks us fs out).2 ∧
+      InvR R U t (serWalk U (fun s c p => doBuild U s c p) toks s fs out).1 := by
   intro toks
   induction toks with
   | nil => intro s us fs out hI; exact ⟨rfl, hI⟩
@@ -333,10 +333,32 @@ theorem serWalk_sim {R} {U : Universe} {t : Track} :
         | some v =>
           simp only
           obtain ⟨s', hb', hI', _⟩ := doBuild_spec hI c f.ns
-          rw [hb']
-          cases hb : pureBuild U c f.ns with
-          | error e => exact ⟨rfl, hI'⟩
-          | ok m => exact ih _ _ _ _ hI'
+          by_cases hk : (v.kind == Kind.elements) = true
+          · rw [if_pos hk, if_pos hk]
+            cases hch : findClazzChoice U v.choices c with
+            | some ch =>
+              simp only
+              rw [hb']
+              cases hb : pureBuild U c f.ns with
+              | error e => exact ⟨rfl, hI'⟩
+              | ok m => exact ih _ _ _ _ hI'
+            | none =>
+              simp only
+              rw [hb']
+              cases hb : pureBuild U c f.ns with
+              | error e => exact ⟨rfl, hI'⟩
+              | ok m1 =>
+                simp only
+                obtain ⟨s2, hb2, hI2, _⟩ := doBuild_spec hI' c none
+                rw [hb2]
+                cases hb0 : pureBuild U c none with
+                | error e => exact ⟨rfl, hI2⟩
+                | ok m2 => exact ih _ _ _ _ hI2
+          · rw [if_neg hk, if_neg hk]
+            rw [hb']
+            cases hb : pureBuild U c f.ns with
+            | error e => exact ⟨rfl, hI'⟩
+            | ok m => exact ih _ _ _ _ hI'
     | leaf i =>
       cases fs with
       | nil => simp only [serWalk]; exact ih _ _ _ _ hI
@@ -403,7 +425,7 @@ theorem step_spec {U : Universe} {t : Track} {s : State} (hI : Inv U t s) {w : W
     rw [if_neg (by simp)]
     unfold Xs.Ctx.serialize pureSerialize
     rw [← h1]
-    cases hr : (serWalk (fun s c p => doBuild U s c p) toks s [] []) with
+    cases hr : (serWalk U (fun s c p => doBuild U s c p) toks s [] []) with
     | mk s' r =>
       rw [hr] at h2
       cases r <;> exact ⟨rfl, h2⟩
